@@ -30,38 +30,53 @@ def tests_ok(out):
     return all("0 failed" in l for l in out.splitlines() if l.startswith("test result:")) and "test result:" in out
 
 
-assert os.path.exists(patch) and os.path.exists(demo), "missing patch or demo"
-# move the other demo files out of the way while running the crate's own suite
-others = [f for f in os.listdir(wt + "/tests") if f.startswith("seeded_demo_")]
-stash = wt + "/.demo_stash"
-os.makedirs(stash, exist_ok=True)
-for f in others:
+d = "/verif/seeded/%s_%s" % (pid, var)
+MODE = os.environ.get("SEED_MODE", "both")     # confirm | check | both
+if MODE == "check":
+    meta = json.load(open(d + "/meta.json"))
+    assert meta.get("confirmed"), "not confirmed yet"
+    patch = d + "/patch.diff"
+else:
+  assert os.path.exists(patch) and os.path.exists(demo), "missing patch or demo"
+  # move the other demo files out of the way while running the crate's own suite
+  others = [f for f in os.listdir(wt + "/tests") if f.startswith("seeded_demo_")]
+  stash = wt + "/.demo_stash"
+  os.makedirs(stash, exist_ok=True)
+  for f in others:
     shutil.move(wt + "/tests/" + f, stash + "/" + f)
-meta = {"property": pid, "variant": var}
-try:
-    sh(["git", "checkout", "--", "src"], cwd=wt)
-    rc, out = sh(["git", "apply", patch], cwd=wt)
-    assert rc == 0, "patch does not apply: " + out
-    rc1, o1 = sh(["cargo", "test", "--workspace", "--no-fail-fast", "--offline"], cwd=wt)
-    rc2, o2 = sh(["cargo", "test", "--workspace", "--no-fail-fast", "--offline"] + FEAT, cwd=wt)
-    meta["existing_tests_pass_with_change"] = rc1 == 0 and tests_ok(o1)
-    meta["existing_tests_pass_with_change_all_features"] = rc2 == 0 and tests_ok(o2)
-    shutil.copy(stash + "/" + os.path.basename(demo), demo)
-    rc3, o3 = sh(["cargo", "test", "--offline", "--test", os.path.basename(demo)[:-3]] + FEAT, cwd=wt)
-    meta["demo_fails_with_change"] = rc3 != 0
-    sh(["git", "checkout", "--", "src"], cwd=wt)
-    rc4, o4 = sh(["cargo", "test", "--offline", "--test", os.path.basename(demo)[:-3]] + FEAT, cwd=wt)
-    meta["demo_passes_without_change"] = rc4 == 0
-finally:
-    sh(["git", "checkout", "--", "src"], cwd=wt)
-    for f in others:
-        if os.path.exists(stash + "/" + f):
-            shutil.move(stash + "/" + f, wt + "/tests/" + f)
+  meta = {"property": pid, "variant": var}
+  try:
+      sh(["git", "checkout", "--", "src"], cwd=wt)
+      rc, out = sh(["git", "apply", patch], cwd=wt)
+      assert rc == 0, "patch does not apply: " + out
+      rc1, o1 = sh(["cargo", "test", "--workspace", "--no-fail-fast", "--offline"], cwd=wt)
+      rc2, o2 = sh(["cargo", "test", "--workspace", "--no-fail-fast", "--offline"] + FEAT, cwd=wt)
+      meta["existing_tests_pass_with_change"] = rc1 == 0 and tests_ok(o1)
+      meta["existing_tests_pass_with_change_all_features"] = rc2 == 0 and tests_ok(o2)
+      shutil.copy(stash + "/" + os.path.basename(demo), demo)
+      rc3, o3 = sh(["cargo", "test", "--offline", "--test", os.path.basename(demo)[:-3]] + FEAT, cwd=wt)
+      meta["demo_fails_with_change"] = rc3 != 0
+      sh(["git", "checkout", "--", "src"], cwd=wt)
+      rc4, o4 = sh(["cargo", "test", "--offline", "--test", os.path.basename(demo)[:-3]] + FEAT, cwd=wt)
+      meta["demo_passes_without_change"] = rc4 == 0
+  finally:
+      sh(["git", "checkout", "--", "src"], cwd=wt)
+      for f in others:
+          if os.path.exists(stash + "/" + f):
+              shutil.move(stash + "/" + f, wt + "/tests/" + f)
 confirmed = all(meta[k] for k in ("existing_tests_pass_with_change", "existing_tests_pass_with_change_all_features", "demo_fails_with_change", "demo_passes_without_change"))
 meta["confirmed"] = confirmed
 print(json.dumps(meta))
 if not confirmed:
     sys.exit(1)
+if MODE == "confirm":
+    os.makedirs(d, exist_ok=True)
+    shutil.copy(patch, d + "/patch.diff")
+    shutil.copy(demo, d + "/" + os.path.basename(demo))
+    old = json.load(open(d + "/meta.json")) if os.path.exists(d + "/meta.json") else {}
+    old.update(meta)
+    json.dump(old, open(d + "/meta.json", "w"), indent=1)
+    sys.exit(0)
 # ---- the checks against it
 rc, out = sh(["git", "-C", "/repo", "apply", patch])
 assert rc == 0, "patch does not apply to /repo: " + out
@@ -77,10 +92,10 @@ finally:
     sh(["git", "-C", "/repo", "checkout", "--", "."])
 meta["checks_quick"] = results
 meta["detected_by_own_check"] = results[pid]["rc"] == 1
-d = "/verif/seeded/%s_%s" % (pid, var)
 os.makedirs(d, exist_ok=True)
-shutil.copy(patch, d + "/patch.diff")
-shutil.copy(demo, d + "/" + os.path.basename(demo))
+if MODE != "check":
+    shutil.copy(patch, d + "/patch.diff")
+    shutil.copy(demo, d + "/" + os.path.basename(demo))
 meta["ran"] = ["cargo test --workspace --no-fail-fast --offline (with change; and with --features fibex,statistics,stream)", "cargo test --offline --test <demo> --features fibex,statistics,stream (with and without change)",
                "git -C /repo apply patch.diff; ./check %s; git -C /repo checkout -- ." % pid]
 old = {}
